@@ -1,10 +1,10 @@
 (** C10 - The dump on disk is always a complete, loadable, per-key-consistent snapshot.
     Statements only; proofs are in Proofs/RdbFacts.v.  Parts: (1) crash points of a save
     (temporary file + rename, Model/Rdb.v [save_run]); (3) damaged input (the loader
-    [load], Model/Rdb.v).  Part (2), value/TTL tearing under concurrent writers, is not
-    modelled here (see design/C10.md). *)
+    [load], Model/Rdb.v).  (2) value/TTL of one key under a concurrent save. *)
 From Ferrous Require Import Base.Bytes Model.Resp Model.Types Model.Strings Model.Rdb.
 From Ferrous Require Import Proofs.BytesFacts Proofs.RdbFacts.
+From Ferrous Require Generated.
 Open Scope Z_scope.
 
 (** A save whose k-th write call fails (any k, including the final flush), whatever the
@@ -45,36 +45,91 @@ Theorem c10_dump_always_complete :
   dk_dump d = dk_dump d0 \/ exists a, In a hist /\ dk_dump d = Some (concat (a_writes a)).
 Proof. exact dump_always_complete. Qed.
 
-(** ---- damaged input ----
-    The loader model is a total function of the file bytes.  Without overflow checks (the
-    release profile of the server) it never takes the Panic outcome, whatever the bytes,
-    the clocks and the databases already loaded: it ends with Ok or with Err and a clean
-    partial load. *)
-Theorem c10_load_total_release :
-  forall now wall ds0 b, load_status (load_from false now wall ds0 b) <> LPanic.
-Proof. exact load_no_panic_release. Qed.
+(** ---- foreground and background saves ([ps_step], Model/Rdb.v) ----
+    Over every history of SAVE attempts, BGSAVE starts and background-thread endings - each
+    attempt failing at an arbitrary point or not at all - the in-progress flag is set exactly
+    while a background save is running: whenever none is running it is clear, *)
+Theorem c10_bgsave_flag_clear_when_idle :
+  forall hist d,
+  let s := fold_left ps_step hist (ps_init d) in ps_running s = None -> ps_flag s = false.
+Proof. exact flag_clear_when_idle. Qed.
 
-(** With overflow checks (debug profile) the claim is refuted: a stream field count of 2^63
-    in the file overflows [field_count * 2] (rdb.rs:900).  Class rdb-fieldcount-overflow. *)
-Example c10_load_panic_debug_refuted :
+(** hence a later BGSAVE (or auto-save) is accepted, and when its thread ends undisturbed the
+    dump is exactly its own complete output and the flag is clear again. *)
+Theorem c10_later_bgsave_succeeds :
+  forall hist d ws,
+  let s := fold_left ps_step hist (ps_init d) in
+  ps_running s = None ->
+  let a := {| a_writes := ws; a_failat := None; a_open_fails := false; a_rename_fails := false |} in
+  let s1 := ps_step s (EvBgStart a) in
+  ps_running s1 = Some a /\
+  let s2 := ps_step s1 EvBgEnd in
+  dk_dump (ps_disk s2) = Some (concat ws) /\ ps_flag s2 = false /\ ps_running s2 = None.
+Proof. exact later_bgsave_works. Qed.
+
+(** The dump is never partial over such histories either. *)
+Theorem c10_dump_complete_with_bgsave :
+  forall hist d0,
+  let s := fold_left ps_step hist (ps_init d0) in
+  dk_dump (ps_disk s) = dk_dump d0 \/
+  exists a, In a (flat_map ev_attempts hist) /\ dk_dump (ps_disk s) = Some (concat (a_writes a)).
+Proof. exact ps_dump_complete. Qed.
+
+(** What [ps_step] assumes of bgsave - the flag is set before the thread is spawned and cleared
+    after the [match] on the save's result, on both arms - is read off rdb.rs on every run
+    (tools/gen_tables.py); a change that clears it on success only breaks this theorem. *)
+Theorem c10_bgsave_flag_discipline_in_source :
+  Generated.rdb_bgsave_sets_flag_before_spawn = true /\ Generated.rdb_bgsave_clears_flag_after_match = true.
+Proof. exact gen_bgsave_flag_discipline. Qed.
+
+(** ---- (2) one key under a save that runs beside the command thread ----
+    [snapshot_key now s0 before after]: what write_snapshot writes for a key that is in state [s0]
+    when the save starts, on which the client commands [before] run before the save thread reads
+    it and [after] afterwards.  The read is ONE lock acquisition (get_with_ttl, 880a648; a sorted
+    set's items and their count are taken once, e63a0b6).  For every initial state and whatever
+    commands run in between: the (value, deadline) pair written is the pair the key had at one
+    single instant of the save (a member of the states it went through); the key is left out only
+    if it was absent, or past its deadline, at that instant. *)
+Theorem c10_snapshot_from_one_instant :
+  forall now s0 before after,
+  let at_read := fold_left cstep before s0 in
+  In at_read (states_of s0 (before ++ after)) /\
+  (snapshot_key now s0 before after = at_read \/
+   (snapshot_key now s0 before after = None /\ exists v dl, at_read = Some (v, Some dl) /\ dl <= now)).
+Proof. exact snapshot_from_one_instant. Qed.
+
+(** the former tearing witnesses (classes value-ttl-tear, zset-len-tear, repaired): a SET .. EX
+    racing with the save yields the old pair or the new pair, never a mixture *)
+Example c10_snapshot_example :
+  let s0 := Some (VStr (bs "old"), None) in
+  snapshot_key 0 s0 [] [CSet (VStr (bs "new")) (Some 100)] = Some (VStr (bs "old"), None) /\
+  snapshot_key 0 s0 [CSet (VStr (bs "new")) (Some 100)] [] = Some (VStr (bs "new"), Some 100).
+Proof. split; reflexivity. Qed.
+
+(** ---- damaged input ----
+    The loader model is a total function of the file bytes.  It never takes the Panic outcome,
+    whatever the bytes, the clocks and the databases already loaded - in either build profile:
+    the only arithmetic on file data that could overflow (the stream field count) is checked
+    explicitly since bcfe7be.  A load ends with Ok, or with Err and a clean partial load. *)
+Theorem c10_load_total :
+  forall now wall ds0 b, load_status (load_from now wall ds0 b) <> LPanic.
+Proof. exact load_no_panic. Qed.
+
+(** Allocation (43b3590): read_string starts with min(declared, 64 KiB) and grows only with
+    the bytes actually read (doubling, plus read_to_end's 32-byte probe).  For EVERY file of L
+    bytes no request of the loader exceeds 64 KiB + 2 L + 32, whatever lengths it declares. *)
+Theorem c10_alloc_bounded :
+  forall now wall ds0 b, load_resv (load_from now wall ds0 b) <= 65536 + 2 * len b + 32.
+Proof. exact load_resv_bounded. Qed.
+
+(** the former witnesses of the classes rdb-fieldcount-overflow and rdb-alloc, now harmless *)
+Example c10_fieldcount_example :
   let b := magic ++ version4 ++ [254; 0; 1] ++ write_string (bs "s") ++ [6] ++ write_string marker
            ++ write_string (bs "1-1") ++ write_string (bs "9223372036854775808")
            ++ write_string (bs "f") ++ write_string (bs "v") ++ write_string (bs "x") ++ [255; 0; 0; 0; 0; 0; 0; 0; 0] in
-  load_status (load true 0 0 b) = LPanic /\ load_status (load false 0 0 b) = LErr.
-Proof. vm_compute. split; reflexivity. Qed.
-
-(** What does bound the loader's largest allocation request, for every file (of bytes), both
-    profiles, any clocks and initial databases: the largest length the 32-bit form can declare. *)
-Theorem c10_alloc_below_4gib :
-  forall chk now wall ds0 b, Forall (fun c => 0 <= c < 256) b ->
-  load_resv (load_from chk now wall ds0 b) < two32.
-Proof. exact load_resv_below_4gib. Qed.
-
-(** The allocation bound [reserved <= k * |file|] is refuted for every reasonable k:
-    read_string allocates the declared length before reading (rdb.rs:1016-1021); an 18-byte
-    file makes the loader ask for 256 MiB.  Class rdb-alloc (DESIGN F-10b). *)
-Example c10_alloc_bounded_refuted :
+  load_status (load 0 0 b) = LErr.
+Proof. vm_compute. reflexivity. Qed.
+Example c10_alloc_example :
   let b := magic ++ version4 ++ [0; 128; 16; 0; 0; 0] ++ bs "abc" in
-  len b = 18 /\ load_status (load false 0 0 b) = LErr /\ load_resv (load false 0 0 b) = 268435456 /\
-  1000000 * len b < load_resv (load false 0 0 b).
+  len b = 18 /\ load_status (load 0 0 b) = LErr /\ load_resv (load 0 0 b) = 65536.
 Proof. vm_compute. repeat split; reflexivity. Qed.
